@@ -7,6 +7,10 @@ replacement.  The explorer (sched.Chooser / sched.explore) answers every observa
              0 = the real verdict, 1 = unknown and no model, 2 = unknown with a feasible but not optimised model
              (a model of the hard assertions only - what a MaxSAT engine holds when it is cut off),
              3 = unknown from now on for this optimizer (no model)
+  sethash    iteration order of sets of Conditional_z3 objects (the z3 back-ends keep falsified conditionals in sets; the
+             default hash is the object address, so the order - and with early exits the number of solver calls - changes from
+             run to run): the harness gives every Conditional_z3 a small integer hash in order of first use, ascending
+             (hash_order=+1) or descending (-1), which makes the iteration order of those sets a choice of the harness
   preptime   the clock read that ends the preprocessing time measurement: 0 = real, 1 = +T seconds, 2 = +2T seconds
 
 Real budgets are set to T = 1000 s so real time never fires; Optimize.set(timeout=...) is recorded, not forwarded."""
@@ -16,7 +20,9 @@ T_BUDGET = 1000
 
 
 class Env:
-    def __init__(self, chooser, with_preptime=False):
+    def __init__(self, chooser, with_preptime=False, hash_order=1):
+        self.hash_order = hash_order
+        self.hash_ids = {}
         self.chooser = chooser
         self.expired = set()        # ids of Deadline objects that have expired
         self.keep = []              # keep Deadline objects alive so ids are not reused
@@ -26,6 +32,11 @@ class Env:
         self.with_preptime = with_preptime
         self.set_timeouts = []
         self.events = []
+
+    def cond_hash(self, cond):
+        k = self.hash_ids.setdefault(id(cond), len(self.hash_ids) + 1)
+        self.keep.append(cond)
+        return k if self.hash_order > 0 else 1000 - k
 
     # ---- Deadline ----
     def _dl(self, dl, what):
@@ -90,8 +101,13 @@ class installed:
     def __enter__(self):
         import inference.deadline as D
         import inference.inference as II
+        from inference.conditional_z3 import Conditional_z3
 
         env = self.env
+        self.CZ = Conditional_z3
+        self.had_hash = "__hash__" in Conditional_z3.__dict__
+        self.old_hash = Conditional_z3.__dict__.get("__hash__")
+        Conditional_z3.__hash__ = lambda c: env.cond_hash(c)
         self.D, self.II = D, II
         self.saved = (D.Deadline.expired, D.Deadline.remaining_ms, D.Deadline.remaining_seconds,
                       z3.Optimize.check, z3.Optimize.model, z3.Optimize.set, II.perf_counter_ns)
@@ -113,6 +129,10 @@ class installed:
 
     def __exit__(self, *a):
         D, II = self.D, self.II
+        if self.had_hash:
+            self.CZ.__hash__ = self.old_hash
+        else:
+            del self.CZ.__hash__
         (D.Deadline.expired, D.Deadline.remaining_ms, D.Deadline.remaining_seconds,
          z3.Optimize.check, z3.Optimize.model, z3.Optimize.set, II.perf_counter_ns) = self.saved
         return False
